@@ -10,6 +10,7 @@ import Nsq.Proofs.Latency
 import Nsq.Proofs.ViewOrder
 import Nsq.Proofs.AggregateViews
 import Nsq.Proofs.AggregateChannels
+import Nsq.Proofs.AggregateTree
 /-!
 # C18 — nsqadmin's cluster view equals the sum of its parts
 
@@ -30,7 +31,11 @@ REVERTED by 338c8a6 — it turned nsqlookupd's ordinary `404 TOPIC_NOT_FOUND` (t
 warnings and, with a single nsqlookupd, into a 502 of the whole listing (found by the fix review). The finding
 `view:inactive-drops-errors` is open again (`inactive_drops_errors_this_tree`, replayed on every run); `Fixes.all` =
 `Fixes.tree` + that switch is kept as the documented proposal (`inactive_warning`, `inactive_view_lists` are theorems about
-it). Every other theorem stated for `Fixes.all` does not look at `inactiveErrs` (only `topicsInactiveView` does). The
+it). Every other theorem stated for `Fixes.all` does not look at `inactiveErrs` (only `topicsInactiveView` does): that is
+PROVED in the section "The committed tree" — `tree_view_eq_all` (`view Fixes.tree w q = view Fixes.all w q` for every
+`q ≠ .topicsInactive`) and the function-level equations of `Proofs.AggregateTree` (`nsqdStats_tree`, `addAll_tree`,
+`lookupdProducers_tree`, `getTopicProducers_tree`, `topicView_tree`, …) carry each of them over to `Fixes.tree`;
+`view_no_panic_tree` and `inactive_view_lists_tree` are the statements for the committed tree itself. The
 `*_without_*` theorems are the Lean witnesses that the unguarded code misbehaves (each replayed on the real code by the check).
 One clause of the property is false of the code *and* of `Fixes.all`: "502 only when none answers" with
 zero known producers (`only_502_when_something_failed_false`, open finding, no patch).
@@ -47,7 +52,7 @@ namespace Nsq.Props.C18
 open Nsq.Model.Aggregate
 open Nsq.Proofs.AggregateNames Nsq.Proofs.AggregateSafe Nsq.Proofs.AggregateSums
 open Nsq.Proofs.AggregateMerge Nsq.Proofs.AggregateFetch Nsq.Proofs.AggregateDedup
-open Nsq.Proofs.AggregateViews Nsq.Proofs.AggregateChannels
+open Nsq.Proofs.AggregateViews Nsq.Proofs.AggregateChannels Nsq.Proofs.AggregateTree
 
 /-! ## topics_union -/
 
@@ -1192,6 +1197,104 @@ example : anyProducer inactiveWorld.lookupds = true := by decide
 example : (match view Fixes.all tvWorld .topicsInactive with
     | .ok { status := 200, warn := true, body := .inactive m } => m.length
     | _ => 9) = 0 := by decide
+
+/-! ## The committed tree `Fixes.tree` (claim audit 2, C18 items 1–2)
+
+The ∀-theorems above are stated for `Fixes.all` (= the committed tree + the reverted proposal F58). /repo and the driver
+run `Fixes.tree`. The two agree on every function of the model that does not read `Fixes.inactiveErrs`
+(`Proofs.AggregateTree.*_tree`, by induction over the same lists), hence on every view but `?inactive=true`. -/
+
+/-- **Carry-over.** For every cluster and every request other than `GET /api/topics?inactive=true` the committed tree
+answers exactly what `Fixes.all` answers: every theorem above whose hypothesis is `view Fixes.all w q = .ok v` (or
+`topicView` / `channelView` / `nodesView` / `nodeView` / `counterView Fixes.all …`: `topicView_tree` …) holds verbatim
+with `Fixes.tree` after rewriting with this equation. -/
+theorem tree_view_eq_all (w : World) (req : Request) (h : req ≠ .topicsInactive) :
+    view Fixes.tree w req = view Fixes.all w req :=
+  view_tree_eq w req h
+
+/-- The handler of the committed tree after the topic list is known never answers 502 and never warns about its own
+per-topic fetches (that is the open finding): the status is 200, the warning is that of the topic list alone. -/
+theorem inactive_view_tree_eq (w : World) (ts : List String) (f : Nat)
+    (hne : w.lookupds.isEmpty = false) (h : lookupdTopics w.lookupds = .got ts f) :
+    ∃ m, view Fixes.tree w .topicsInactive = .ok { status := 200, warn := f > 0, body := .inactive m } ∧
+      m.map (·.1) = ts.filter (fun t => !anyProducer (lookupdsFor w t)) ∧
+      ∀ t cs, (t, cs) ∈ m → cs.Pairwise (· < ·) ∧
+        ∀ c, c ∈ cs ↔ ∃ a ∈ channelAnswers w t, ∃ names, a = some names ∧ c ∈ names := by
+  obtain ⟨m, hgo, g1, g2⟩ := inactiveGo_tree w ts
+  refine ⟨m, ?_, g1, g2⟩
+  rw [inactive_view_eq Fixes.tree w ts f hne h, hgo]
+  simp
+
+/-- **view_no_panic on the committed tree** (`Fixes.tree` = /repo: the six guards, F58 reverted): every view of every
+cluster, `?inactive=true` included, completes — no fetch goroutine panics and no handler answers 500. -/
+theorem view_no_panic_tree : view_no_panic_for Fixes.tree := by
+  intro w req
+  by_cases hreq : req = .topicsInactive
+  · subst hreq
+    cases hne : w.lookupds.isEmpty with
+    | true =>
+      simp only [view, topicsInactiveView, hne, if_true]
+      cases nsqdTopics w with
+      | allFailed => exact ⟨_, rfl, by decide⟩
+      | got ts f => exact ⟨_, rfl, by simp⟩
+    | false =>
+      cases hts : lookupdTopics w.lookupds with
+      | allFailed =>
+        refine ⟨{ status := 502 }, ?_, by decide⟩
+        simp only [view, topicsInactiveView, hne, Bool.false_eq_true, if_false, hts]
+      | got ts f =>
+        obtain ⟨m, hv, _⟩ := inactive_view_tree_eq w ts f hne hts
+        exact ⟨_, hv, by simp⟩
+  · rw [tree_view_eq_all w req hreq]
+    exact view_no_panic w req
+
+/-- **inactive_view_lists on the committed tree.** `/api/topics?inactive=true` of /repo as committed (nsqlookupd mode):
+the answer is a 502 iff no nsqlookupd answered `/topics`; otherwise it is a 200 whose warning is that of the topic list
+ALONE (the errors of the per-topic fetches are dropped: open finding `view:inactive-drops-errors`), and it lists — in the
+order of the topic list — exactly the topics for which no responding nsqlookupd's `/lookup?topic=` answer holds a
+(non-null) producer (a topic for which NO nsqlookupd answered `/lookup` is therefore listed), each with the strictly
+sorted union of the `/channels?topic=` answers that arrived (none arrived: no channel). The listing is the one
+`inactive_view_lists` states for the proposal whenever that one answers 200. -/
+theorem inactive_view_lists_tree (w : World) (hl : w.lookupds ≠ []) (v : View)
+    (h : view Fixes.tree w .topicsInactive = .ok v) :
+    (v.status = 502 ∧ lookupdTopics w.lookupds = .allFailed) ∨
+    (v.status = 200 ∧ ∃ ts f m, lookupdTopics w.lookupds = .got ts f ∧ v.warn = decide (f > 0) ∧ v.body = .inactive m ∧
+      m.map (·.1) = ts.filter (fun t => !anyProducer (lookupdsFor w t)) ∧
+      ∀ t cs, (t, cs) ∈ m → cs.Pairwise (· < ·) ∧
+        ∀ c, c ∈ cs ↔ ∃ l ∈ w.lookupds, ∃ names, channelsFor w l t = some names ∧ c ∈ names) := by
+  have hne : w.lookupds.isEmpty = false := by
+    cases hw : w.lookupds with
+    | nil => exact absurd hw hl
+    | cons _ _ => rfl
+  cases hts : lookupdTopics w.lookupds with
+  | allFailed =>
+    simp only [view, topicsInactiveView, hne, Bool.false_eq_true, if_false, hts, Except.ok.injEq] at h
+    subst h
+    exact .inl ⟨rfl, rfl⟩
+  | got ts f =>
+    obtain ⟨m, hv, g1, g2⟩ := inactive_view_tree_eq w ts f hne hts
+    rw [hv] at h
+    simp only [Except.ok.injEq] at h
+    subst h
+    refine .inr ⟨rfl, ts, f, m, rfl, rfl, rfl, g1, fun t cs hm => ?_⟩
+    obtain ⟨u1, u2⟩ := g2 t cs hm
+    refine ⟨u1, fun c => ?_⟩
+    rw [u2]
+    simp only [channelAnswers, List.mem_map]
+    constructor
+    · rintro ⟨a, ⟨l, hl', rfl⟩, names, hs, hc⟩; exact ⟨l, hl', names, hs, hc⟩
+    · rintro ⟨l, hl', names, hs, hc⟩; exact ⟨_, ⟨l, hl', rfl⟩, names, hs, hc⟩
+
+/-- Non-vacuity: on the committed tree `inactiveWorld` (L1 fails the per-topic fetches) answers 200 without warning and
+lists `t1`; a panic-free 200 on the cluster of the F4 witness. -/
+example : ∃ m, view Fixes.tree inactiveWorld .topicsInactive = .ok { status := 200, warn := false, body := .inactive m } ∧
+    m.map (·.1) = ["t1"] := by
+  obtain ⟨m, hv, g1, _⟩ := inactive_view_tree_eq inactiveWorld ["t1"] 0 rfl inactiveWorld_topics
+  refine ⟨m, by simpa using hv, ?_⟩
+  rw [g1]; decide
+example : (match view Fixes.tree f4World .nodes with
+    | .ok v => v.status | .error _ => 0) = 200 := by decide
+example : Request.topic "t1" ≠ .topicsInactive := nofun
 
 /-! ## The latency document: shape of `e2e_processing_latency.percentiles` (round 7, `fixes/F53`) -/
 
